@@ -18,6 +18,7 @@ MX = 'include/asl/Matrix.h'
 _mx_rules = [(r'Matrix_<T>', 'M', None), (r'(\w+)\.rows\(\)', r'\1.rows', None), (r'(\w+)\.cols\(\)', r'\1.cols', None),
              (r'(\w+)\.transposed\((\w+)\)', r'TRANSPOSED(\1, \2)', None), (r'(\w+)\.clone\(\)', r'CLONE(\1)', None), (r'(\w+)\.copy\((\w+)\)', r'COPY(\1, \2)', None),
              (r'\bM (\w+)\(([^;=]*)\);', r'M \1 = NEWM(\2);', None), (r'Array<int> (\w+)\((\w+)\);', r'int* \1 = vf_ints(\2);', None),
+             (r'(\w+)\[i\] = i;', r'{ \1[i] = i; NEW_COLUMN(A); }', None),
              (r'(?m)^(\s*)(\w+)\(([^;]*?)\)\s*(\+=|=)(?!=)\s*([^;]*);', r'\1{ WR(\2, \3); vf_sink = \5; }', None),
              (r'\b(A|b|x|A_|b_|A2|b2)\(', r'RD(\1, ', None)]
 solve_frame = Unit(
@@ -31,16 +32,18 @@ solve_frame = Unit(
 typedef double T;
 typedef struct { int blk, rows, cols; } M;      /* a Matrix_ handle: which storage block it refers to, and its shape */
 #define NBLK 24
-int g_nblk, g_wr[NBLK], g_init[NBLK];
+int g_nblk, g_wr[NBLK], g_init[NBLK], g_orig[NBLK];   /* g_orig: the block holds the coefficients the caller passed (or the normal-equation matrix built from them), not yet eliminated */
 double nondet_double(void); double vf_sink;
-static M NEWM(int r, int c) { __CPROVER_assert(r >= 0 && c >= 0, "Matrix(r, c): sizes >= 0"); __CPROVER_assert(g_nblk < NBLK, "harness block budget"); M m = { g_nblk++, r, c }; return m; }
-static M CLONE(M a) { M m = NEWM(a.rows, a.cols); g_init[m.blk] = 1; return m; }                    /* clone(): a block of its own with the same elements */
-static M TRANSPOSED(M a, M x) { __CPROVER_assert(a.rows == x.rows, "A^T * X: row counts agree"); M m = NEWM(a.cols, x.cols); g_init[m.blk] = 1; return m; }   /* A.transposed(X) = A^T X, a new matrix */
-static void vf_wr(M m, int i, int j) { __CPROVER_assert(0 <= i && i < m.rows && 0 <= j && j < m.cols, "element written is inside the matrix"); g_wr[m.blk] = 1; }
+static M NEWM(int r, int c) { __CPROVER_assert(r >= 0 && c >= 0, "Matrix(r, c): sizes >= 0"); __CPROVER_assert(g_nblk < NBLK, "harness block budget"); M m = { g_nblk++, r, c }; g_wr[m.blk] = 0; g_init[m.blk] = 0; g_orig[m.blk] = 0; return m; }
+static M CLONE(M a) { M m = NEWM(a.rows, a.cols); g_init[m.blk] = 1; g_orig[m.blk] = g_orig[a.blk]; return m; }                    /* clone(): a block of its own with the same elements */
+static M TRANSPOSED(M a, M x) { __CPROVER_assert(a.rows == x.rows, "A^T * X: row counts agree"); M m = NEWM(a.cols, x.cols); g_init[m.blk] = 1; g_orig[m.blk] = g_orig[a.blk] && g_orig[x.blk]; return m; }   /* A.transposed(X) = A^T X, a new matrix */
+static void vf_wr(M m, int i, int j) { __CPROVER_assert(0 <= i && i < m.rows && 0 <= j && j < m.cols, "element written is inside the matrix"); g_wr[m.blk] = 1; g_orig[m.blk] = 0; }
 static double vf_rd(M m, int i, int j) { __CPROVER_assert(0 <= i && i < m.rows && 0 <= j && j < m.cols, "element read is inside the matrix"); return nondet_double(); }
 #define WR(m, i, j) vf_wr(m, i, j)
 #define RD(m, i, j) vf_rd(m, i, j)
-static void COPY(M dst, M src) { __CPROVER_assert(dst.rows == src.rows && dst.cols == src.cols, "copy(): same shape"); g_wr[dst.blk] = 1; }
+static void COPY(M dst, M src) { __CPROVER_assert(dst.rows == src.rows && dst.cols == src.cols, "copy(): same shape"); g_wr[dst.blk] = 1; g_orig[dst.blk] = g_orig[src.blk]; }
+/* start of the work on one right-hand side (the row permutation is reset): the elimination that follows computes its multipliers from the working matrix, so that must be the original again */
+static void NEW_COLUMN(M a) { __CPROVER_assert(g_orig[a.blk], "each right-hand side is eliminated against the original coefficients, not against what the previous one left"); }
 #define swap(a, b) { int vf_t = (a); (a) = (b); (b) = vf_t; }
 static int* vf_ints(int n) { __CPROVER_assert(n >= 0, "Array<int>(n): n >= 0"); int* p = (int*)malloc(sizeof(int) * (size_t)n); __CPROVER_assume(p != NULL); return p; }   /* Array<int>(n): exactly n ints */
 static M solve_(M A_, M b_);
@@ -52,7 +55,7 @@ static M solve_(M A_, M b_) @@solve_@@
 int nondet_int(void);
 void vf_harness(void) {
   int ra = RA, ca = CA, cb = CB;      /* the shape is fixed per variant (loops then unroll exactly); element values, and with them every pivot choice, are arbitrary */
-  M A = { 0, ra, ca }, b = { 1, ra, cb }; g_nblk = 2; g_init[0] = g_init[1] = 1;
+  M A = { 0, ra, ca }, b = { 1, ra, cb }; g_nblk = 2; g_init[0] = g_init[1] = 1; g_orig[0] = g_orig[1] = 1;
   M x = solve(A, b);
   __CPROVER_assert(!g_wr[0], "solve(A, b) leaves the caller's A as it was (A x = b is about that A)");
   __CPROVER_assert(!g_wr[1], "solve(A, b) leaves the caller's b as it was");
@@ -65,8 +68,8 @@ void vf_harness(void) {
     planted=[('solve', r'M A2 = CLONE\(A\);', 'M A2 = A;', r'^([2-5])x\1_rhs1$')],   # only square systems (2x2 up: a 1x1 system eliminates nothing) with one right-hand side take that path without another copy
     replay=lambda r, o, work: {'concretisation': 'shape of the failing variant; element values fixed (values are not part of the counterexample: the unit tracks blocks)',
                                'native': replay.run_native('C20/driver.cpp', ['solve'] + __import__('re').findall(r'\d+', r.variant), work)},
-    variants=dict(('%dx%d_rhs%d' % (r, c, k), ['-DRA=%d' % r, '-DCA=%d' % c, '-DCB=%d' % k]) for (r, c) in ((1, 1), (2, 2), (3, 3), (4, 4), (5, 5), (2, 1), (3, 2), (4, 2), (5, 3)) for k in (1, 2)),
-    bound='square systems 1x1..5x5 and over-determined 2x1, 3x2, 4x2, 5x3, each with 1 and 2 right-hand sides; element values (so every pivot choice) arbitrary',
+    variants=dict(('%dx%d_rhs%d' % (r, c, k), ['-DRA=%d' % r, '-DCA=%d' % c, '-DCB=%d' % k]) for (r, c) in ((1, 1), (2, 2), (3, 3), (4, 4), (5, 5), (2, 1), (3, 2), (4, 2), (5, 3)) for k in (1, 2, 3) if k < 3 or (r, c) in ((2, 2), (3, 3), (4, 4), (3, 2))),
+    bound='square systems 1x1..5x5 and over-determined 2x1, 3x2, 4x2, 5x3, each with 1 and 2 right-hand sides (2x2, 3x3, 4x4, 3x2 also with 3); element values (so every pivot choice) arbitrary',
     desc='solve() and solve_() run together (both bodies cut): the elimination, the row permutation and the back substitution read and write only inside the matrices, never write the '
          "caller's A or b block (whichever of the two functions makes the private copies), and return x in a block of its own with the right shape",
     functions=['solve(const Matrix_<T>&, const Matrix_<T>&)', 'solve_(Matrix_<T>&, Matrix_<T>&)'],
